@@ -267,6 +267,8 @@ def s_case(draw, max_len=6, worm='maybe', locking=None, histories=('run', 'run+c
     case['init'] = s_init(draw, mdl)
     if draw(st.integers(0, 3)) == 0:
         case['decoy'] = True
+    if draw(st.integers(0, 7)) == 0:
+        case['deepcopy'] = True
     h = draw(st.sampled_from(list(histories)))
     run1 = s_run(draw, mdl, max_steps=max_steps, nonmultiple=nonmultiple)
     if h == 'run':
